@@ -207,3 +207,205 @@ Print Assumptions C04_gen_sends_a2a.
 Theorem C04_gen_a2a_counts : forall g base j, 0 <= base -> base + 2 * g < B31 -> 0 <= g -> a2a_loop_cond j g = (j <? g) /\ a2a_wait_count g = 2 * g.
 Proof. exact gen_a2a_counts_c. Qed.
 Print Assumptions C04_gen_a2a_counts.
+
+(* ===== HISTORIES: several calls on ONE communicator, back to back, no barrier, every interleaving ACROSS the calls ===============
+   (coq/C04/AllgatherHist.v)  A call = (entry point, group, block size, blocks): E_top = sc_allgather (whole communicator),
+   E_rec = sc_allgather_recursive and E_a2a = sc_allgather_alltoall on the group (c_g, c_base); ranks outside the group do not
+   take part.  call_ok P c: 0 < g, 0 <= base, base + g <= P, the blocks of the members have length c_sz c (zero included).
+   call_prog amax P me c k: what rank `me` does for the call, continuing with k (its output); call_out P me c: the blocks of the
+   group in rank order for a member, [] for a non-member.  The messages of ALL calls use the same four tags. *)
+From ScV Require Import C04.AllgatherHist.
+
+(* ONE CALL inside an ARBITRARY global state (this is what makes the calls composable): every rank of the communicator stands at the
+   call, the channels inside the communicator are empty; then the call can be scheduled - no rank outside moves, EVERY channel ends
+   as it was (nothing of this call stays in flight) - to the point where every rank continues with the output of the call *)
+Theorem C04_history_call : forall (amax : Z), 1 <= amax -> forall (P : Z) (c : call) (k : Z -> payload -> prog) (s : gs),
+  call_ok P c ->
+  (forall r, 0 <= r < P -> pr s r = call_prog amax P r c (k r)) ->
+  (forall a d t, 0 <= a < P -> 0 <= d < P -> ch s a d t = []) ->
+  exists n s', run n s s' /\
+    (forall r, 0 <= r < P -> pr s' r = k r (call_out P r c)) /\
+    (forall r, ~ (0 <= r < P) -> pr s' r = pr s r) /\
+    (forall a d t, ch s' a d t = ch s a d t).
+Proof. exact call_sched. Qed.
+Print Assumptions C04_history_call.
+
+(* what a call hands out, and how the outputs of a history are cut apart again *)
+Theorem C04_history_outputs : forall P me c cs,
+  hist_out P me (c :: cs) = call_out P me c ++ hist_out P me cs /\ hist_out P me [] = [] /\
+  call_out P me c = (if inb (snd (grp P c)) (fst (grp P c)) me then slots (c_blk c) (snd (grp P c)) (Z.to_nat (fst (grp P c))) else []) /\
+  (call_ok P c ->
+   length (call_out P me c) = if inb (snd (grp P c)) (fst (grp P c)) me then (Z.to_nat (fst (grp P c)) * c_sz c)%nat else 0%nat).
+Proof. intros P me c cs. exact (hist_outputs P me c cs). Qed.
+Print Assumptions C04_history_outputs.
+
+(* EVERY history, EVERY schedule.  hist_start: rank r < P runs hist_prog amax P r cs [] (the calls of cs one after the other, no
+   barrier), all channels empty; hist_end: rank r < P has returned call_out of call 1 ++ call_out of call 2 ++ ..., all channels
+   empty.  For every list of valid calls - any mix of the three entry points, any groups, any block sizes - there is n with:
+   some schedule reaches hist_end in n steps and for EVERY schedule prefix `run m hist_start s'` (ranks may be several calls
+   apart): m <= n, s' can be completed to hist_end in exactly n - m steps, a final s' IS hist_end (every call returned ITS
+   blocks, no message of any call is left), and s' is final or some rank can move. *)
+Theorem C04_history_every_schedule : forall (amax : Z), 1 <= amax -> forall (P : Z) (cs : list call),
+  Forall (call_ok P) cs ->
+  exists n : nat,
+    run n (hist_start amax P cs) (hist_end P cs) /\
+    forall m s', run m (hist_start amax P cs) s' ->
+      (m <= n)%nat /\ run (n - m) s' (hist_end P cs) /\
+      (final s' -> s' = hist_end P cs /\ m = n) /\
+      (final s' \/ exists r s'', step s' r s'').
+Proof. exact hist_every_schedule. Qed.
+Print Assumptions C04_history_every_schedule.
+
+(* the same for the posted-receive semantics (MPI/SemPosted.v): Isends are not held back by pending Irecvs - here not even by the
+   pending receives of an EARLIER call - and posted receives complete in any order *)
+Theorem C04_history_every_posted_schedule : forall (amax : Z), 1 <= amax -> forall (P : Z) (cs : list call),
+  Forall (call_ok P) cs ->
+  exists n : nat,
+    run_p n (hist_start amax P cs) (hist_end P cs) /\
+    forall m s', run_p m (hist_start amax P cs) s' ->
+      (m <= n)%nat /\ run_p (n - m) s' (hist_end P cs) /\
+      (final s' -> s' = hist_end P cs /\ m = n) /\
+      (final s' \/ exists r s'', step_p s' r s'').
+Proof. exact hist_every_posted_schedule. Qed.
+Print Assumptions C04_history_every_posted_schedule.
+
+(* A RANK THAT HAS FINISHED HAS THE RIGHT RESULT whatever the others are still doing: in EVERY reachable state of a history (any
+   interleaving; the other ranks anywhere in their calls; messages of later calls already queued behind those of earlier calls),
+   a rank that has returned has returned the outputs of its calls, call by call *)
+Theorem C04_history_finished_rank : forall (amax : Z), 1 <= amax -> forall (P : Z) (cs : list call),
+  Forall (call_ok P) cs ->
+  forall m s' r out, run m (hist_start amax P cs) s' -> 0 <= r < P -> pr s' r = Ret out -> out = hist_out P r cs.
+Proof. exact hist_finished_rank. Qed.
+Print Assumptions C04_history_finished_rank.
+
+(* REUSE OF OUTPUTS: the k-th call (entry point, group, block size, own block) is COMPUTED by every rank from what it has gathered
+   so far.  dhist_ok: at every call all ranks agree on entry point, group and size, and the resolved call is valid;
+   dhist_out: the accumulated outputs.  Same conclusion, both semantics. *)
+Theorem C04_history_reuse_every_schedule : forall (amax : Z), 1 <= amax -> forall (P : Z) (cs : list (payload -> call)),
+  dhist_ok P cs (fun _ => []) ->
+  exists n : nat,
+    run n (dhist_start amax P cs) (dhist_end P cs) /\
+    (forall m s', run m (dhist_start amax P cs) s' ->
+      (m <= n)%nat /\ run (n - m) s' (dhist_end P cs) /\
+      (final s' -> s' = dhist_end P cs /\ m = n) /\
+      (final s' \/ exists r s'', step s' r s'')) /\
+    (forall m s', run_p m (dhist_start amax P cs) s' ->
+      (m <= n)%nat /\ run_p (n - m) s' (dhist_end P cs) /\
+      (final s' -> s' = dhist_end P cs /\ m = n) /\
+      (final s' \/ exists r s'', step_p s' r s'')).
+Proof. exact dhist_all_schedules. Qed.
+Print Assumptions C04_history_reuse_every_schedule.
+
+(* non-vacuity 1: a history of five calls on 7 ranks (sc_allgather 2-byte blocks; direct exchange on ranks 2..4 with EMPTY blocks;
+   sc_allgather_recursive on ranks 1..6; sc_allgather with empty blocks; sc_allgather 3-byte blocks): hypotheses discharged, results
+   of a rank inside and of a rank outside the subgroups computed *)
+Theorem C04_history_instance :
+  (exists n, run n (hist_start 5 7 ex_hist) (hist_end 7 ex_hist) /\ terminal_for (hist_start 5 7 ex_hist) (hist_end 7 ex_hist) n) /\
+  pr (hist_end 7 ex_hist) 3 =
+    Ret ([0; 100; 1; 101; 2; 102; 3; 103; 4; 104; 5; 105; 6; 106] ++ [] ++ [51; 52; 53; 54; 55; 56] ++ [] ++
+         [0; 0; 7; 1; 1; 7; 2; 2; 7; 3; 3; 7; 4; 4; 7; 5; 5; 7; 6; 6; 7]) /\
+  pr (hist_end 7 ex_hist) 0 =
+    Ret ([0; 100; 1; 101; 2; 102; 3; 103; 4; 104; 5; 105; 6; 106] ++
+         [0; 0; 7; 1; 1; 7; 2; 2; 7; 3; 3; 7; 4; 4; 7; 5; 5; 7; 6; 6; 7]).
+Proof. exact ex_hist_schedules. Qed.
+Print Assumptions C04_history_instance.
+
+(* non-vacuity 2, THE BOUNDARY BETWEEN CALLS: a reachable state (20 steps) of a four-call history on 3 ranks in which rank 0 is
+   three calls ahead of rank 2: channel 0 -> 2 with tag ALLTOALL holds the message of call 1 and, behind it, the message of call 4
+   (same tag, different length) while rank 2 still waits at its first receive of call 1; the run can be completed to hist_end *)
+Theorem C04_history_fast_rank :
+  exists s', run 20 (hist_start 5 3 ex_fast) s' /\
+    ch s' 0 2 TAG_ALLTOALL = [[10]; [40; 50; 60]] /\
+    (exists k, pr s' 2 = Do (Recv 0 TAG_ALLTOALL) k) /\
+    (exists n, run n s' (hist_end 3 ex_fast)) /\
+    pr (hist_end 3 ex_fast) 2 = Ret ([10; 11; 12] ++ [40; 50; 60; 41; 51; 61; 42; 52; 62]).
+Proof. exact ex_fast_rank. Qed.
+Print Assumptions C04_history_fast_rank.
+
+(* non-vacuity 3: outputs reused (block size and blocks of call 2 computed from the result of call 1, call 3 on a subgroup) *)
+Theorem C04_history_reuse_instance :
+  (exists n, run n (dhist_start 5 3 ex_dhist) (dhist_end 3 ex_dhist) /\
+             terminal_for (dhist_start 5 3 ex_dhist) (dhist_end 3 ex_dhist) n) /\
+  pr (dhist_end 3 ex_dhist) 1 = Ret ([1; 2; 3] ++ [2; 4; 6; 3; 6; 9; 4; 8; 12] ++ [13; 14]) /\
+  pr (dhist_end 3 ex_dhist) 0 = Ret ([1; 2; 3] ++ [2; 4; 6; 3; 6; 9; 4; 8; 12]).
+Proof. exact ex_dhist_schedules. Qed.
+Print Assumptions C04_history_reuse_instance.
+
+(* ===== tie T1, whole control flow: the LOOP of sc_allgather_alltoall iteration by iteration, the BODY of sc_allgather ===============
+   a2a_iter (Gen/AllgatherC04.v) is one iteration of the loop body translated as a block: (Irecv called?, its 7 arguments, Isend called?,
+   its 7 arguments, stop); a2a_loop_init / a2a_loop_cond / a2a_loop_step the loop header; a2a_null_recv_slot / a2a_null_send_slot the
+   request slots the skip branch sets to sc_MPI_REQUEST_NULL.  C04/AllgatherGen.v re-assembles the loop from these pieces: loop_js g fuel j0
+   = the values j takes, iter_recv_call / iter_send_call = the calls of iteration j as (byte offset from data, bytes, peer, tag),
+   iter_recv_slot / iter_send_slot = the request slot filled in iteration j.  a2a_iter_at g base r sz tall data request comm byte ret1 ret2 j
+   = a2a_iter j (r - base) r sz g data request comm byte tall ret1 ret2. *)
+
+(* one iteration, for every j: nothing for the own offset; otherwise Irecv into slot j from rank base + j and Isend of the own slot to
+   that rank - sz bytes, the same datatype, the all-to-all tag, the same communicator, requests j and groupsize + j; never a break *)
+Theorem C04_gen_a2a_iter : forall g base r sz tall data request comm byte ret1 ret2,
+  0 <= base -> base <= r < base + g -> 0 <= sz -> g * sz < B31 -> base + 2 * g < B31 ->
+  forall j, 0 <= j < g ->
+  a2a_iter_at g base r sz tall data request comm byte ret1 ret2 j =
+  if j =? r - base then (0, 0, 0, 0, 0, 0, 0, 0, 0, 0, 0, 0, 0, 0, 0, 0, 0)
+  else (1, data + j * sz, sz, u32 byte, base + j, tall, comm, request + j,
+        1, data + (r - base) * sz, sz, u32 byte, base + j, tall, comm, request + g + j, 0).
+Proof. exact gen_a2a_iter. Qed.
+Print Assumptions C04_gen_a2a_iter.
+
+(* MODEL = GENERATED LOOP: the model's receive list of the all-to-all window is what the generated iterations post, over the generated
+   sequence of loop indices, in posting order *)
+Theorem C04_gen_loop_recvs : forall g base r sz tall data request comm byte ret1 ret2,
+  0 <= base -> base <= r < base + g -> 0 <= sz -> g * sz < B31 -> base + 2 * g < B31 ->
+  map (as_call sz base 0 0 0 tall) (recvs_a2a g base r) =
+  flat_map (iter_recv_call g base r sz tall data request comm byte ret1 ret2) (loop_js g (S (Z.to_nat g)) a2a_loop_init).
+Proof. exact gen_loop_recvs. Qed.
+Print Assumptions C04_gen_loop_recvs.
+
+Theorem C04_gen_loop_sends : forall g base r sz tall data request comm byte ret1 ret2,
+  0 <= base -> base <= r < base + g -> 0 <= sz -> g * sz < B31 -> base + 2 * g < B31 ->
+  map (as_call sz base 0 0 0 tall) (sends_a2a g base r) =
+  flat_map (iter_send_call g base r sz tall data request comm byte ret1 ret2) (loop_js g (S (Z.to_nat g)) a2a_loop_init).
+Proof. exact gen_loop_sends. Qed.
+Print Assumptions C04_gen_loop_sends.
+
+(* loop indices 0 .. g-1; REQUEST SLOTS: iteration j fills slot j (Irecv or NULL) and slot g + j (Isend or NULL), i.e. over the loop
+   the slots 0 .. g-1 and g .. 2g-1 each exactly once, and MPI_Waitall waits for 2g requests; no iteration stops the loop; both calls
+   of an iteration use the same datatype and communicator *)
+Theorem C04_gen_loop_slots : forall g base r sz tall data request comm byte ret1 ret2,
+  0 <= base -> base <= r < base + g -> 0 <= sz -> g * sz < B31 -> base + 2 * g < B31 ->
+  let js := loop_js g (S (Z.to_nat g)) a2a_loop_init in
+  js = map Z.of_nat (seq 0 (Z.to_nat g)) /\
+  map (iter_recv_slot g base r sz tall data request comm byte ret1 ret2) js = map Z.of_nat (seq 0 (Z.to_nat g)) /\
+  map (iter_send_slot g base r sz tall data request comm byte ret1 ret2) js = map (fun j => g + Z.of_nat j) (seq 0 (Z.to_nat g)) /\
+  a2a_wait_count g = 2 * g /\
+  (forall j, In j js -> iter_stop g base r sz tall data request comm byte ret1 ret2 j = 0 /\
+     (j <> r - base -> iter_types g base r sz tall data request comm byte ret1 ret2 j = (u32 byte, comm, u32 byte, comm))).
+Proof.
+  intros g base r sz tall data request comm byte ret1 ret2 H1 H2 H3 H4 H5.
+  exact (conj (gen_loop_js g base r H1 H2 H5) (gen_loop_slots g base r sz tall data request comm byte ret1 ret2 H1 H2 H3 H4 H5)).
+Qed.
+Print Assumptions C04_gen_loop_slots.
+
+(* the WHOLE BODY of sc_allgather: (Comm_size called, communicator, Comm_rank called, communicator, memcpy called, destination, source,
+   bytes, sc_allgather_recursive called, its six arguments, return value).  With datasize = n * ts, P and r what the two queries stored:
+   the own block goes to slot r of group (P, 0) - byte offset (r - 0) * datasize, 1 * datasize bytes from sendbuf - then ONE call of the
+   recursion on the same communicator and buffer for the group (P, 0) with offset r - 0; returns sc_MPI_SUCCESS; nothing else is called *)
+Theorem C04_gen_top_body : forall sendbuf recvbuf comm n n' ts P r sendtype recvtype ret1 ret2 succ,
+  0 <= n < B31 -> 0 <= ts -> n * ts < B31 -> 0 <= r < P -> P < B31 ->
+  top_body sendbuf n sendtype recvbuf n' recvtype comm ts ret1 ret2 P r succ =
+  (1, comm, 1, comm, 1, recvbuf + (r - 0) * (n * ts), sendbuf, 1 * (n * ts), 1, comm, recvbuf, n * ts, P, r - 0, r, succ).
+Proof. exact gen_top_body. Qed.
+Print Assumptions C04_gen_top_body.
+
+(* request slots of sc_allgather_recursive: on each of the four paths through the exchange step, ag_wait_count (= 3) slots are written -
+   by Irecv / Isend or with sc_MPI_REQUEST_NULL - and every slot 0 .. 2 is among them, so MPI_Waitall (3, request, ..) never looks at an
+   unset request (ag_req_slots: the literal slot numbers per path, collected from the source on every run) *)
+Theorem C04_gen_req_slots :
+  length ag_req_slots = 4%nat /\
+  Forall (fun p => Z.of_nat (length p) = ag_wait_count /\ forall i, 0 <= i < ag_wait_count -> In i p) ag_req_slots.
+Proof. exact gen_req_slots. Qed.
+Print Assumptions C04_gen_req_slots.
+
+(* sc_allgather_alltoall allocates exactly the requests it fills and waits for *)
+Theorem C04_gen_a2a_alloc : forall g, 0 <= g -> 2 * g < B31 -> a2a_alloc_bytes g = a2a_wait_count g * 4.
+Proof. exact gen_a2a_alloc. Qed.
+Print Assumptions C04_gen_a2a_alloc.
